@@ -180,7 +180,7 @@ pub fn check_faithful(prog: &Prog, w: u64, built: &Built) -> Result<Vec<String>,
             }
         }
         // ... and on no other item: the multiset of doc lines in the file is exactly the expected one
-        let mut got: Vec<String> = v.all_docs.iter().filter(|d| d.contains("pv-doc-") || d.is_empty()).cloned().collect();
+        let mut got: Vec<String> = v.all_docs.iter().filter(|d| d.contains("pv-doc-") || d.is_empty() || crate::genprog::MD_DOC_LINES.contains(&d.as_str())).cloned().collect();
         let mut want: Vec<String> = expected_docs.clone();
         got.sort();
         want.sort();
@@ -265,7 +265,7 @@ impl Prop for Faithful {
         "C17/faithful".into()
     }
     fn rule(&self) -> String {
-        "programs from the rich generator with independent pub/private choices on every type, enum, field, impl function, vfunc, extern value and singleton owner (base fields private only in single-module programs), every accepted subset of {copyable, cloneable, defaultable, packed}, doc comments of 0-3 lines made of unique tokens on modules, types, enums, fields, impl functions, vfuncs and, to test 'on no other item', on enum variants and extern values. Oracle (syn view of the output): pub iff declared pub for every counterpart; generated fields (vftable pointer, padding) and placeholder slots private and undocumented; Copy iff copyable, Clone iff copyable or cloneable, Default iff defaultable; repr packed without align iff packed; docs line for line on struct/enum/field/wrapper/slot/re-exposed copies/module inner docs; the multiset of all doc lines in the file equals the expected one. Non-trivial: a pub/private mix within one item kind, >=1 derive, >=2 doc-carrying items".into()
+        "programs from the rich generator with independent pub/private choices on every type, enum, field, impl function, vfunc, extern value and singleton owner (base fields private only in single-module programs), every accepted subset of {copyable, cloneable, defaultable, packed}, doc comments of 0-3 lines made of unique tokens, empty lines and lines with Markdown meaning (code fences, headings, lists, indented code, links, html) on modules, types, enums, fields, impl functions, vfuncs and, to test 'on no other item', on enum variants and extern values. Oracle (syn view of the output): pub iff declared pub for every counterpart; generated fields (vftable pointer, padding) and placeholder slots private and undocumented; Copy iff copyable, Clone iff copyable or cloneable, Default iff defaultable; repr packed without align iff packed; docs line for line on struct/enum/field/wrapper/slot/re-exposed copies/module inner docs; the multiset of all doc lines in the file equals the expected one. Non-trivial: a pub/private mix within one item kind, >=1 derive, >=2 doc-carrying items".into()
     }
     fn gen(&self, t: &mut Tape) -> Case {
         let w = if t.chance(1, 2) { 8 } else { 4 };
@@ -276,6 +276,7 @@ impl Prop for Faithful {
         cfg.max_items = 2 + t.below(10 * crate::driver::scale());
         cfg.backends = false;
         cfg.static_vfuncs = true;
+        cfg.alias_types = 4;
         let (prog, _, _) = gen_prog(t, cfg);
         Case { prog, w }
     }
